@@ -302,6 +302,8 @@ func genIso(r *kit.Rand, kind string, big bool) []string {
 			g.typ = kit.Pick(r, []string{"i", "f", "s", "b"})
 		case kind == "winalertcount" || kind == "winwhere" || kind == "winsample" || kind == "winchange" || kind == "wincount":
 			g.typ = kit.Pick(r, []string{"i", "i", "f", "s"})
+		case kind == "evalspread" || kind == "evalsigma" || kind == "wheresigma" || kind == "alertsigma":
+			g.typ = kit.Pick(r, []string{"f", "f", "f", "i"}) // sigma/spread want floats; an int group errors
 		default:
 			g.typ = kit.Pick(r, []string{"i", "i", "f"}) // numeric nodes: int and float groups side by side
 		}
